@@ -170,11 +170,12 @@ Theorem cors_c_sound c parse :
     exists d, In d (configured_domains c) /\ dom_spec (hostname u) d.
 Proof. unfold cors_allowed_c, loaded_domains. apply cors_sound. Qed.
 
-(* the kind of the client (public or with a secret) is irrelevant to the decision *)
-Theorem client_kind_irrelevant p q ds pats parse :
-  can_redirect_c {| rc_public := p; configured_domains := ds |} pats parse =
-  can_redirect_c {| rc_public := q; configured_domains := ds |} pats parse.
-Proof. reflexivity. Qed.
+(* the kind of the client (public or with a secret) and every other option are irrelevant to the decision *)
+Theorem client_kind_irrelevant c1 c2 pats parse :
+  configured_domains c1 = configured_domains c2 ->
+  can_redirect_c c1 pats parse = can_redirect_c c2 pats parse /\
+  cors_allowed_c c1 parse = cors_allowed_c c2 parse.
+Proof. unfold can_redirect_c, cors_allowed_c, loaded_domains. intros ->. split; reflexivity. Qed.
 
 Lemma dom_spec_bytes host d c : dom_spec host d -> In c d -> In c host.
 Proof.
@@ -199,7 +200,7 @@ Theorem trimset_loader_refuted : exists c pats u,
   can_redirect_c_trimset c pats (Some u) = Some true /\ can_redirect_c c pats (Some u) = Some false /\
   forall d, In d (configured_domains c) -> host_matches (hostname u) d = false.
 Proof.
-  exists {| rc_public := false;
+  exists {| rc_public := false; rc_options := [];
             configured_domains := [[104;116;116;112;115;58;47;47;115;115;104;46;101;120;97;109;112;108;101]] |},
     [],
     {| scheme := https; opaque := false; uhost := [101;118;105;108;46;101;120;97;109;112;108;101]; rawquery := [];
@@ -213,7 +214,7 @@ Theorem loopback_prefix_refuted : exists c pats u,
   can_redirect_c_loopback c pats (Some u) = Some true /\ can_redirect_c c pats (Some u) = Some false /\
   scheme u <> https.
 Proof.
-  exists {| rc_public := true; configured_domains := [[101;120;46;99;111]] |}, [],
+  exists {| rc_public := true; rc_options := []; configured_domains := [[101;120;46;99;111]] |}, [],
     {| scheme := http_s; opaque := false; uhost := [49;50;55;46;48;46;48;46;49;46;101;118;105;108;46;99;111;109];
        rawquery := []; upath := [47;99;98]; hostname := [49;50;55;46;48;46;48;46;49;46;101;118;105;108;46;99;111;109] |}.
   split; [vm_compute; reflexivity|]. split; [vm_compute; reflexivity|]. discriminate.
